@@ -364,6 +364,7 @@ func TestInFlight(t *testing.T) {
 		hung := false
 		synctest.Test(t, func(t *testing.T) {
 			s := newScript(tr, 100+i, sc.name, []string{"a", "b"})
+			s.e.async = true
 			runGuarded(s, sc)
 			if s.dead {
 				// The real code panicked or a duplicate never returned.
@@ -514,6 +515,7 @@ func TestRandomInFlight(t *testing.T) {
 		synctest.Test(t, func(t *testing.T) {
 			rng := common.Rand(int64(5000 + i))
 			s := newScript(tr, 2000+i, "random-inflight", []string{"a", "b"})
+			s.e.async = true
 			d := &rdriver{s: s, rng: rng}
 			for j := 0; j < 2; j++ {
 				c := newClient([]string{"A", "B"}[j], 1)
